@@ -50,9 +50,9 @@ Proof.
   intros w w' He Hs H so E. rewrite Hs in E. eapply first_parent_ext; [exact He|]. now apply H.
 Qed.
 
-Lemma sref_new : forall objs b so p wt um x,
-  first_parent objs so <> None -> stack_ref_has_parent (mkWorld objs b (Some so) p wt um x).
-Proof. intros objs b so p wt um x H so' E. cbn in E. injection E as <-. exact H. Qed.
+Lemma sref_new : forall objs b so p wt um x a,
+  first_parent objs so <> None -> stack_ref_has_parent (mkWorld objs b (Some so) p wt um x a).
+Proof. intros objs b so p wt um x a H so' E. cbn in E. injection E as <-. exact H. Qed.
 
 Lemma init_stack_ref_has_parent : forall t, stack_ref_has_parent (init_world t).
 Proof. intros t so E. discriminate. Qed.
@@ -75,7 +75,7 @@ Proof.
     | None => None
     | Some (objs', so) =>
         Some (mkOpened (ensure_patch_refs
-                 (mkWorld objs' (w_branch w) (Some so) (w_prefs w) (w_wt w) (w_unmerged w) (w_base w))
+                 (mkWorld objs' (w_branch w) (Some so) (w_prefs w) (w_wt w) (w_unmerged w) (w_base w) (w_apc w))
                  (empty_state (w_branch w))) (empty_state (w_branch w)) (w_branch w) true)
     end = Some op -> stack_ref_has_parent (op_world op)).
   { intros E. destruct (state_commit _ _ _) as [[objs' so]|] eqn:Ec; [|discriminate].
@@ -197,8 +197,8 @@ Proof. intros. unfold run_rename. sr. Qed.
 Lemma run_commit_sref : forall w r n al ae,
   stack_ref_has_parent w -> stack_ref_has_parent (fst (run_commit w r n al ae)).
 Proof. intros. unfold run_commit. sr. Qed.
-Lemma run_uncommit_sref : forall w n names,
-  stack_ref_has_parent w -> stack_ref_has_parent (fst (run_uncommit w n names)).
+Lemma run_uncommit_sref : forall lower_s w n names,
+  stack_ref_has_parent w -> stack_ref_has_parent (fst (run_uncommit lower_s w n names)).
 Proof. intros. unfold run_uncommit. sr. Qed.
 Lemma run_clean_sref : forall w a u, stack_ref_has_parent w -> stack_ref_has_parent (fst (run_clean w a u)).
 Proof. intros. unfold run_clean. sr. Qed.
@@ -356,6 +356,16 @@ Proof.
   apply transact_sref; [exact Eo|apply frame_squash_closure].
 Qed.
 
+Lemma run_pick_sref : forall lower_s w src nm na,
+  stack_ref_has_parent w -> stack_ref_has_parent (fst (run_pick lower_s w src nm na)).
+Proof.
+  intros lower_s w src nm na H.
+  destruct (run_pick_case lower_s w src nm na) as
+    [_|_|op Eo|op given o Eo _ _ _ _|op given o pn0 Eo _ _ _ _ _|op given o pn0 pn c par Eo _ _ _ _ _ _ _ _];
+    cbn [fst]; try exact H; apply (fun E => open_sref _ _ _ E H) in Eo; try exact Eo.
+  apply transact_sref; [apply sref_with_objs; [apply store_extends_put|exact Eo]|apply frame_pick_body].
+Qed.
+
 Theorem step_stack_ref_has_parent : forall lower_s w c,
   stack_ref_has_parent w -> stack_ref_has_parent (fst (step lower_s w c)).
 Proof.
@@ -384,7 +394,9 @@ Proof.
   - now apply run_edit_sref.
   - now apply run_rebase_sref.
   - now apply run_squash_sref.
+  - now apply run_pick_sref.
   - destruct (open_stack PAllow w) as [op|] eqn:Eo; [|exact H]. now apply (open_sref _ _ _ Eo).
+  - now apply run_git_sref.
   - now apply run_git_sref.
   - now apply run_git_sref.
   - now apply run_git_sref.
